@@ -152,7 +152,21 @@ pub fn haversine_m(a: (f64, f64), b: (f64, f64)) -> f64 {
 }
 
 fn gz(data: &[u8]) -> Vec<u8> {
-    let mut e = flate2::write::GzEncoder::new(Vec::new(), flate2::Compression::default());
+    // like the gzip command line tool: the member header carries the original file name and a modification
+    // time (sometimes also a comment and an extra field - all optional parts of RFC 1952 headers)
+    let h = data.len() % 4;
+    let mut b = flate2::GzBuilder::new();
+    if h >= 1 {
+        b = b.filename("table.csv").mtime(1_700_000_000 + data.len() as u32);
+    }
+    if h >= 2 {
+        b = b.comment("exported for routing");
+    }
+    if h == 3 {
+        b = b.extra(vec![b'A', b'P', 2, 0, 1, 2]);
+    }
+    let level = if data.len() % 3 == 0 { flate2::Compression::fast() } else { flate2::Compression::default() };
+    let mut e = b.write(Vec::new(), level);
     e.write_all(data).unwrap();
     e.finish().unwrap()
 }
